@@ -18,6 +18,7 @@ PROP = 'C12'
 LEVEL = 'exploration'
 EVAL_KEY = 'runs'
 C = 10.0
+RUN_TIMEOUT = 120     # seconds; a solve that does not return is a violation (the systems have <= 2500 unknowns)
 TIERS = {
     'quick': {'runs': 3000, 'opts': {}, 'chunk': 20},
     'thorough': {'runs': 150000, 'opts': {}, 'chunk': 60, 'time_cap': 1500},
@@ -56,7 +57,7 @@ def gen_case(rng):
     p['prec'] = rng.choice([None, None, 'c', 'r'])
     p['max_full'] = rng.choice([0, 500])
     p['ls'] = rng.choice([1, 1, 2])
-    p['x0'] = rng.choice(['none', 'none', 'rank1', 'rank3', 'near', 'near'])
+    p['x0'] = rng.choice(['none', 'none', 'rank1', 'rank3', 'near', 'near', 'exact'])
     # 'near': the exact solution plus a relative perturbation between 10*eps and sqrt(eps) (a warm start from a coarser solve)
     p['near'] = rng.uniform(0.0, 1.0)
     p['band'] = -1
@@ -123,7 +124,7 @@ def build(p):
         A = torchtt.eye(N) + E * (0.3 / nE)
     b = TT(gen.rand_cores(N, p['Rb'], 'f64', g))
     x0 = None
-    if p['x0'] == 'near':
+    if p['x0'] in ('near', 'exact'):
         n = int(np.prod(N))
         Am = gen.dense(A).reshape(n, n)
         xt = torch.linalg.solve(Am, gen.dense(b).reshape(n)).reshape(N)
@@ -131,7 +132,8 @@ def build(p):
         lo, hi = math.log10(10 * p['eps']), math.log10(math.sqrt(p['eps']))
         delta = 10 ** (lo + (hi - lo) * p.get('near', 0.5))
         pert = TT(gen.rand_cores(N, [1] * (d + 1), 'f64', g))
-        x0 = x0 + pert * (delta * gen.fro(xt) / max(gen.fro(gen.dense(pert)), 1e-300))
+        if p['x0'] == 'near':
+            x0 = x0 + pert * (delta * gen.fro(xt) / max(gen.fro(gen.dense(pert)), 1e-300))
     elif p['x0'] != 'none':
         r = 1 if p['x0'] == 'rank1' else 3
         x0 = TT(gen.rand_cores(N, [1] + [r] * (d - 1) + [1], 'f64', g))
@@ -166,7 +168,18 @@ def exec_case(p, res):
     res['keys'].append(fam)
     desc = {'case': p}
     seams.seed_global(p['tseed'])
-    x, exc, f = svdfault.run_with_plan(lambda: solve(p, A, b, x0), p['plan'] or {})
+    from sim.history import step_alarm, StepTimeout
+    import sim.history as _h
+    old_to = _h.STEP_TIMEOUT
+    _h.STEP_TIMEOUT = RUN_TIMEOUT
+    try:
+        with step_alarm():
+            x, exc, f = svdfault.run_with_plan(lambda: solve(p, A, b, x0), p['plan'] or {})
+    finally:
+        _h.STEP_TIMEOUT = old_to
+    if isinstance(exc, StepTimeout):
+        out.append(core.violation(PROP, 'HANG', 'amen_solve', 'no_return', 'amen_solve did not return within %d s (runs of this size take well under a second)' % RUN_TIMEOUT, desc))
+        return out, None
     svdfault.branch_stats(f, stats)
     core.bump(stats, 'cfg.prec_%s' % p['prec'])
     core.bump(stats, 'cfg.max_full_%d' % p['max_full'])
